@@ -43,6 +43,7 @@ enum Kind {
     K_OTHER_LEAK_PLUGIN, // the test builds and destroys a second MemoryLeakWarningPlugin over a detector of its own (as the library's own tests do)
     K_ADD_FAILURES,   // a = n: n failures recorded through UtestShell::addFailure without leaving the phase; d = line; s2 = token
     K_NESTED_RUN,     // the test builds a TestTestingFixture and runs a nested test through it (a = 1: the nested test fails), then goes on: whatever it records afterwards is its own
+    K_DETECTOR_OFF,   // the test switches the leak detector off (as a test may around code it does not want tracked) and fails before it switches it on again
     K_COUNT
 };
 const char* kindName(int k);
